@@ -48,7 +48,8 @@ pub fn registry() -> Vec<Box<dyn Check>> {
         Box::new(canon::CanonCheck),
         Box::new(extract::ExtractCheck),
         Box::new(matching::MatchCheck),
-        Box::new(matching::FireCheck),
+        Box::new(matching::FireCheck { id: "C04" }),
+        Box::new(matching::FireCheck { id: "C07R" }),
         Box::new(rw::RwCheck { id: "C03" }),
         Box::new(rw::RwCheck { id: "C14" }),
         Box::new(rw::RwCheck { id: "C08R" }),
